@@ -103,7 +103,14 @@ def main():
             new.append(a)
         i += 1
     if merged:
-        new += ["--unwindset", ",".join(merged)]
+        # first entry for a loop wins (per-harness bounds come first, then the global ones)
+        seen, uniq = set(), []
+        for e in merged:
+            lid = e.rsplit(":", 1)[0]
+            if lid not in seen:
+                seen.add(lid)
+                uniq.append(e)
+        new += ["--unwindset", ",".join(uniq)]
     logp = os.environ.get("VERIF_WRAP_LOG")
     if logp:
         with open(logp, "a") as f:
